@@ -145,7 +145,12 @@ def census():
                             continue
                     key = (rel, name_here, kind)
                     counters[key] = counters.get(key, 0) + 1
-                    sites.append({"file": rel, "fn": name_here, "kind": kind, "ordinal": counters[key]})
+                    # what the site is applied to: the name of the last call before it (`to_str` in
+                    # `p.to_str().unwrap()`), independent of variable names and layout
+                    before = re.sub(r"\s+", "", ln[:mm.start()])
+                    cm = re.search(r"([A-Za-z0-9_]+)(\([^()]*\))?$", before)
+                    ctx = cm.group(1) if cm and kind in ("unwrap", "expect") else ""
+                    sites.append({"file": rel, "fn": name_here, "kind": kind, "ordinal": counters[key], "ctx": ctx})
             for kind, rx in STATE_PATTERNS:
                 if rx.search(ln):
                     state.append({"file": rel, "fn": name_here, "kind": kind, "text": ln.strip()[:120]})
@@ -178,7 +183,22 @@ def main():
     now = set(key(s) for s in c["panic_sites"])
     new = sorted(now - known)
     gone = sorted(known - now)
-    res = {"new_sites": new, "vanished_sites": gone,
+    # A site that moved to another function of the same file (a helper was split off, a function renamed) is the
+    # same site: pair each new site with a vanished one of the same file, kind and expression text.
+    ctx_now = {key(s): s.get("ctx") for s in c["panic_sites"]}
+    pool = list(gone)
+    moved = []
+    for k in list(new):
+        f, _, kd = k.split("::")
+        kd = kd.split("#")[0]
+        for g in pool:
+            gf, _, gk = g.split("::")
+            if gf == f and gk.split("#")[0] == kd and table["panic_sites"][g].get("ctx") is not None and table["panic_sites"][g]["ctx"] == ctx_now[k]:
+                pool.remove(g)
+                new.remove(k)
+                moved.append([g, k])
+                break
+    res = {"new_sites": new, "vanished_sites": gone, "moved_sites": moved,
            "shared_state": c["shared_state"], "expected_shared_state": table.get("shared_state", []),
            "n_sites": len(now)}
     print(json.dumps(res, indent=1))
